@@ -3,6 +3,7 @@ import XixiKV.Proofs.Chunk
 import XixiKV.Proofs.Record
 import XixiKV.Proofs.Fio
 import XixiKV.Proofs.TransEq
+import XixiKV.Proofs.TransEq2
 /-!
 # C11 — block/chunk framing round-trips every record at every offset
 
@@ -165,6 +166,34 @@ theorem C11_translated_remap (newBase dataSize : Nat) (h : newBase + dataSize < 
     Generated.Trans.fio.remap_endOff ↑newBase ↑dataSize
       = ↑(Fio.roundUp Generated.Trans.fio.blockSize (newBase + dataSize)) :=
   TransEq.trans_remap_endOff_eq newBase dataSize h
+
+/-- the position-based reader `(*DataFile).readToBuf` as it stands in /repo (loop with early returns
+    and `break`, the block window read from the file, the call to the translated `DecodeChunk`) =
+    the model's `readAt`, for every file, block id and offset in machine range: same outcome
+    (`nil` / `io.EOF` / `ErrInvalidCRC`) and, on success, the same payload; the fuel suffices. -/
+theorem C11_translated_readToBuf (file block0 : ByteArray) (blockID offset : Nat)
+    (hb0 : block0.size = 32768) (hfile : file.size / BS + 1 < 2^32) (hblk : blockID < 2^32) (hoff : offset < 2^32) :
+    ∃ out, Generated.Trans.datafile.readToBuf block0 file TransEq.crcNat (file.size / BS) (file.size % BS) blockID offset
+        = some (TransEq.ofOutErr (readAt Chunk.crcCodec file blockID offset), out) ∧
+      ∀ p, readAt Chunk.crcCodec file blockID offset = .ok p → out = p :=
+  TransEq.trans_readToBuf_eq file block0 blockID offset hb0 hfile hblk hoff
+
+/-- the record codec as it stands in /repo: `EncodeLogRecord` = the model's `encodeRecord`
+    (sizes < 2³¹, scratch header of the size the engine allocates), and `DecodeLogRecord` /
+    `DecodeLogRecordValue` return what the model decodes whenever the model decodes at all
+    (the inputs on which the model returns `none` are those on which the Go code panics or
+    mis-slices: empty input, truncated / overflowing varint, negative or oversized lengths). -/
+theorem C11_translated_record_codec :
+    (∀ (r : Record) (header : ByteArray), r.key.size < 2^31 → r.value.size < 2^31 → r.batch < 2^64 →
+        Generated.Trans.datafile.MaxLogRecordHeaderSize ≤ header.size →
+        Generated.Trans.datafile.EncodeLogRecord (TransEq.goRecord r) header = encodeRecord r) ∧
+    (∀ (data : ByteArray) (r : Record), data.size < 2^63 → decodeRecord data = some r →
+        Generated.Trans.datafile.DecodeLogRecord data = TransEq.goRecord r) ∧
+    (∀ (data v : ByteArray), data.size < 2^63 → decodeValue data = some v →
+        Generated.Trans.datafile.DecodeLogRecordValue data = v) :=
+  ⟨fun r header hk hv hb hf => TransEq.trans_EncodeLogRecord_eq21 r header hk hv hb hf,
+   fun data r hs h => TransEq.trans_DecodeLogRecord_eq data r hs h,
+   fun data v hs h => TransEq.trans_DecodeLogRecordValue_eq data v hs h⟩
 
 /-- non-vacuity: a 40 000-byte payload appended to a file that ends 3 bytes before a block boundary -/
 example : ∃ f d : ByteArray, 0 < d.size ∧ f.size % BS = 32765 ∧ d.size = 40000 :=
